@@ -193,8 +193,24 @@ def main(argv):
             )
             procs.append((s, p, out, log, journal))
         failed = []
+        limit = float(os.environ.get("VERIF_WORKER_TIMEOUT_S", "0") or 0) or (5400.0 if tier == "quick" else 6 * 3600.0)
+        deadline = time.time() + limit
         for s, p, out, log, journal in procs:
-            rc = p.wait()
+            try:
+                rc = p.wait(timeout=max(1.0, deadline - time.time()))
+            except subprocess.TimeoutExpired:
+                # a hang is inconclusive (never a violation): stop the worker and say where it was
+                p.kill()
+                p.wait()
+                log.close()
+                where = ""
+                if os.path.exists(journal):
+                    try:
+                        with open(journal) as fh:
+                            where = fh.read()[:600]
+                    except OSError:
+                        pass
+                raise HarnessError("worker %d exceeded the time limit of %.0f s (inconclusive); last journalled case: %s" % (s, limit, where))
             log.close()
             if rc < 0 or rc in (134, 139):
                 case = None
